@@ -123,7 +123,7 @@ PROPS = {
              "examined on the implementation.",
              "models x new shapes (up/down, per-axis) x linear/nearest x scalar/per-axis sigma x unit changes", props="props/C16.v",
              api_corr="meta", api_n=(20, 120)),
-    "C17": P(["Effects"], [], "proof",
+    "C17": P(["Effects", "ApiGen"], [], "proof",
              "Theorems on the effect summary extracted from the API layer (no argument updated in place through any alias, no global rebound, no memoising "
              "decorator, attributes assigned only by constructors / resample / smooth); the content is observed: random API histories on shared, copied "
              "and deep-copied objects with inputs as list/tuple/F-order/strided/float32, interleaved 2D/3D use and raising calls; "
